@@ -31,7 +31,7 @@ def run_reader(repo, rows):
     fn = m.functions.get('read_excel')
     if fn is None:
         raise AnchorError(XL + '.read_excel not found')
-    I = Interp(repo, max_depth=12)
+    I = Interp(repo)
     I.native['pandas.read_excel'] = lambda I_, fr, a, k, n: sheet(I_, rows)
     I.native['pandas.isnull'] = lambda I_, fr, a, k, n: a[0] is None
     I.native['os.path.dirname'] = lambda I_, fr, a, k, n: '/dir'
@@ -115,7 +115,7 @@ def check(run, repo):
                          ('no comment row: skiprows=None', {'skiprows': None}),
                          ('skiprows=[1, 2]', {'skiprows': ListV([C(1), C(2)])}),
                          ('header=2', {'header': C(2)}), ('sheet_name', {'sheet_name': 'Sheet7'})):
-        I = Interp(repo, max_depth=12)
+        I = Interp(repo)
         seen = {}
 
         def reader(I_, fr, a_, k_, n_, seen=seen):
